@@ -212,13 +212,25 @@ class SFileR(Sym):
 
 
 class SFileW(Sym):
+    """gzip.open(..., "wb"): data reaches the disk while writing and -- completely -- only when the file is closed (end of the
+    `with` block); until then the on-disk content is an incomplete (undecodable) prefix."""
+
     def __init__(self, ctx, loc):
         self.ctx, self.loc = ctx, loc
-        self.interp = None
+        self.pending = None
 
     def sym_with(self, interp, body):
-        self.interp = interp
-        return body(self)
+        ex, ctx, loc = interp.ex, self.ctx, self.loc
+        body(self)        # an exception leaves whatever prefix was written
+        if self.pending is not None:
+            data = self.pending
+            if ctx.faults and ex.decide(None, "fault:close"):
+                e = z3.Int(ex.fresh_name("errno"))
+                ex.assume(z3.And(e != errno.ENOENT, e > 0))
+                raise RaiseSignal(SymOSError(e))
+            d = ex.fresh("written", Data)
+            ex.assume(z3.And(cache_ok(d), cache_domA(d) == data.dom, cache_valA(d) == data.val))
+            ctx.effect(interp, f"close: {loc.n} complete", ctx.fs.with_pf(loc.p, loc.n, Node.File(d)))
 
     def sym_getattr(self, ex, name):
         if name == "write":
@@ -226,17 +238,14 @@ class SFileW(Sym):
                 ctx, loc = self.ctx, self.loc
                 if not isinstance(data, SBytes) or data.kind != "dump":
                     raise Unsupported("write of this value")
-                # non-atomic: a torn prefix may be all that reaches the disk
-                if ctx.faults and ex.decide(None, "fault:write-torn"):
-                    torn = ex.fresh("torn", Data)
-                    ex.assume(z3.Not(cache_ok(torn)))
-                    ctx.effect(interp, f"write {loc.n} (torn)", ctx.fs.with_pf(loc.p, loc.n, Node.File(torn)))
+                torn = ex.fresh("torn", Data)
+                ex.assume(z3.Not(cache_ok(torn)))
+                ctx.effect(interp, f"write {loc.n} (incomplete until closed)", ctx.fs.with_pf(loc.p, loc.n, Node.File(torn)))
+                if ctx.faults and ex.decide(None, "fault:write"):
                     e = z3.Int(ex.fresh_name("errno"))
                     ex.assume(z3.And(e != errno.ENOENT, e > 0))
                     raise RaiseSignal(SymOSError(e))
-                d = ex.fresh("written", Data)
-                ex.assume(z3.And(cache_ok(d), cache_domA(d) == data.dom, cache_valA(d) == data.val))
-                ctx.effect(interp, f"write {loc.n}", ctx.fs.with_pf(loc.p, loc.n, Node.File(d)))
+                self.pending = data
                 return None
             return NativeStub(write, "file.write", wants_ex=True)
         raise Unsupported(f"file.{name}")
